@@ -192,13 +192,13 @@ package commitlog
 // works, other goroutines may append segments (the quantifier's "cleans that run while new segments are appended").
 // Every segment appended meanwhile must still be in the log afterwards, behind the cleaned ones, in order.
 // The segment list of an open log as seen under l.mu is never empty and holds no nil entry.
-//@ lockinv commitLog.mu guards segments serves C09: len(self.segments) >= 1 && (forall j int :: 0 <= j && j < len(self.segments) ==> self.segments[j] != nil)
-//@ func (*commitLog).rebaseSegments serves C09
+//@ lockinv commitLog.mu guards segments serves C09, C08: len(self.segments) >= 1 && (forall j int :: 0 <= j && j < len(self.segments) ==> self.segments[j] != nil)
+//@ func (*commitLog).rebaseSegments serves C09, C08
 //@   requires l != nil && len(from) >= 1 && from[0] != nil
 //@   assumes l.leaderEpochCache != nil && wfEpochs(l.leaderEpochCache) && (epochCache != nil ==> wfEpochs(epochCache) && epochCache != l.leaderEpochCache)
 //@   ensures assumed [epoch-caches-stay-well-formed] wfEpochs(l.leaderEpochCache) && (epochCache != nil ==> wfEpochs(epochCache))
 //@   ensures [cleaned-then-appended-in-order] len(result) == old(len(to)) + old(len(from)) && (forall j int :: 0 <= j && j < old(len(to)) ==> result[j] == old(to[j])) && (forall k int :: old(len(to)) <= k && k < len(result) ==> result[k] == old(from[k - len(to)]))
-//@ func (*commitLog).clean serves C09
+//@ func (*commitLog).clean serves C09, C08
 //@   returns (cleaned, epochCache, err)
 //@   requires l != nil
 //@   assumes segsOK(segments) && l.deleteCleaner != nil && l.compactCleaner != nil
@@ -209,14 +209,14 @@ package commitlog
 // while the clean ran - from the base offset of the segment that was active when the clean started - are carried over
 // into the rebuilt history before it replaces the log's
 //@ ghost var epochsCarriedOver bool
-//@ func (*commitLog).Clean serves C09, C02
+//@ func (*commitLog).Clean serves C09, C02, C08
 //@   requires l != nil
 //@   ghost at entry: ghost.epochsCarriedOver := false
 //@   ghost after call Rebase: ghost.epochsCarriedOver := arg0 == epochCache && arg1 == l.leaderEpochCache && len(oldSegments) >= 1 && arg2 <= oldSegments[len(oldSegments)-1].BaseOffset
 //@   call Replace requires [C02:epochs-that-started-while-the-clean-ran-are-carried-over] ghost.epochsCarriedOver
 //@   assumes l.leaderEpochCache != nil && wfEpochs(l.leaderEpochCache)
 //@   call clean requires [cleans-the-snapshot] arg1 == oldSegments
-//@   call rebaseSegments requires [C09:every-segment-appended-meanwhile-is-kept] arrOf(arg1) == arrOf(newSegments) && offOf(arg1) == offOf(newSegments) + len(oldSegments) && len(arg1) == len(newSegments) - len(oldSegments) && arg2 == cleaned
+//@   call rebaseSegments requires [every-segment-appended-meanwhile-is-kept] arrOf(arg1) == arrOf(newSegments) && offOf(arg1) == offOf(newSegments) + len(oldSegments) && len(arg1) == len(newSegments) - len(oldSegments) && arg2 == cleaned
 
 // ---------------------------------------------------------------------------------------------
 // Leader epoch cache (property C02; also C05, C09): leader epoch -> first offset of that epoch
